@@ -1,6 +1,6 @@
 """C02: reported indices are a valid witness of the match."""
 import mcommon
-from mcommon import prepare, replay  # noqa
+from mcommon import prepare  # noqa
 
 TRUSTED = ["memchr/memmem modelled by their specification"]
 ASSUMPTIONS = ["needles already normalised"]
@@ -34,9 +34,24 @@ def run(ctx, broken):
     lines = mcommon.base_lines(ctx)
     if ctx["tier"] == "thorough":
         lines += mcommon.exhaustive_lines(ctx, "FGSPOE", "c02")
-    return mcommon.generic_run(ctx, lines, view, clauses,
-                               "same generator as C01, all six algorithms; the indices variant is called with a non-empty prior vector [4000000007, 9] whose preservation is checked; compared: (decision, appended indices) of implementation vs model; oracle: embedding_b / contiguity / anchoring from Spec/Matching.v on the implementation's indices. Non-trivial = distinct case with non-empty strings.", tag="c02")
+    res = mcommon.generic_run(ctx, lines, view, clauses,
+                               "same generator as C01, all six algorithms; the indices variant is called with a non-empty prior vector [4000000007, 9] whose preservation is checked; compared: (decision, appended indices) of implementation vs model; oracle: embedding_b / contiguity / anchoring from Spec/Matching.v on the implementation's indices. Non-trivial = distinct case with non-empty strings. "
+                               "Atom::indices / Pattern::indices (also indices-returning match functions): a reduced run of the C15 stream (corpus + 2500 structured cases); its oracle clauses on indices (same decision as the score variant, one index per needle character of every positive atom, nothing appended by a failed or negated atom) count for this property.", tag="c02")
+    import c15
+    fs, ev = c15.subset_failures(ctx, {"atom_indices", "indices", "panic"}, 2500)
+    res["failures"] += [dict(f, cls_origin="C15 stream") for f in fs]
+    res["evaluations"] += ev
+    return res
 
 
 def known(f, kf):
     return None
+
+
+def replay(path):
+    import json
+    f = (json.load(open(path)).get("failure") or {})
+    if f.get("cls_origin") == "C15 stream":
+        import c15
+        return c15.replay(path)
+    return mcommon.replay(path)
